@@ -14,11 +14,16 @@ use serde_json::{json, Value};
 type F = Fr381;
 
 macro_rules! record_fn {
-    ($fname:ident, $A:ty, $L:ty) => {
-        /// One `open` call over polynomials of the given sizes (one record per polynomial).
-        fn $fname(scheme: &str, sizes: &[usize], beh_nv: i64) -> Vec<Value> {
+    ($fname:ident, $A:ty, $L:ty, $decl:expr, $mk:expr) => {
+        /// One `open` call over polynomials of the given sizes (one record per polynomial).  `custom` =
+        /// (security parameter, inverse rate) of parameters built through the public constructor instead of
+        /// `setup`; the DECLARED security parameter and distance (from the constructor arguments / the scheme's
+        /// published defaults, never read back from the key) travel with the record.
+        fn $fname(scheme: &str, sizes: &[usize], beh_nv: i64, custom: Option<(usize, usize)>) -> Vec<Value> {
             let size = sizes[0];
-            let tag = sizes.iter().map(|x| x.to_string()).collect::<Vec<_>>().join("+");
+            let tag = sizes.iter().map(|x| x.to_string()).collect::<Vec<_>>().join("+")
+                + &custom.map(|(l, r)| format!("@lam{}rho{}", l, r)).unwrap_or_default();
+            let (dlam, dd0, dd1): (usize, usize, usize) = $decl(custom);
             let mut out = vec![];
             let mut rng = rng_for("columns", size as u64 + 1000 * sizes.len() as u64);
             let maxsize = *sizes.iter().max().unwrap();
@@ -41,9 +46,15 @@ macro_rules! record_fn {
                 tag: String::new(),
             };
             let err = |w: String| vec![json!({"scheme": scheme, "size": tag.clone(), "error": w})];
-            let pp = match crate::session::cached_setup::<$A>(maxsize as i64, beh_nv) {
-                Out::Ok(p) => p,
-                o => return err(format!("setup: {}", o.detail())),
+            let pp = match custom {
+                None => match crate::session::cached_setup::<$A>(maxsize as i64, beh_nv) {
+                    Out::Ok(p) => p,
+                    o => return err(format!("setup: {}", o.detail())),
+                },
+                Some((l, r)) => match $mk(l, r) {
+                    Some(p) => p,
+                    None => return vec![],
+                },
             };
             let (ck, vk) = match guarded(|| <$A as Adapter>::PC::trim(&pp, maxsize, 0, None)) {
                 Out::Ok(k) => k,
@@ -101,6 +112,7 @@ macro_rules! record_fn {
                 recs.push(json!({
                     "scheme": scheme, "size": format!("{}[{}]", tag, j), "n_rows": n_rows, "n_cols": n_cols, "n_ext": n_ext,
                     "lam": vk.sec_param(), "d0": d0, "d1": d1, "bits": F::MODULUS_BIT_SIZE,
+                    "dlam": dlam, "dd0": dd0, "dd1": dd1,
                     "ncols": cols.len(), "npaths": paths.len(),
                     "leaf": paths.iter().map(|p| p.leaf_index).collect::<Vec<_>>(),
                     "colrows": cols.iter().map(|c| c.len()).collect::<Vec<_>>(),
@@ -118,23 +130,56 @@ macro_rules! record_fn {
         }
     };
 }
-record_fn!(record_uni, LigeroUni, ark_poly_commit::linear_codes::UnivariateLigero<F, MTConfig, UniPoly<F>, ColH<F>>);
-record_fn!(record_ml, LigeroMl, ark_poly_commit::linear_codes::MultilinearLigero<F, MTConfig, MlPoly<F>, ColH<F>>);
-record_fn!(record_bd, Brakedown, ark_poly_commit::linear_codes::MultilinearBrakedown<F, MTConfig, MlPoly<F>, ColH<F>>);
+// declared (lambda, distance): Reed-Solomon of rate 1/rho has relative distance (rho - 1)/rho; `setup` uses lambda = 128, rho = 4
+fn ligero_decl(c: Option<(usize, usize)>) -> (usize, usize, usize) {
+    match c {
+        Some((l, r)) => (l, r - 1, r),
+        None => (128, 3, 4),
+    }
+}
+fn ligero_mk(l: usize, r: usize) -> Option<ark_poly_commit::linear_codes::LigeroPCParams<F, MTConfig, ColH<F>>> {
+    Some(ark_poly_commit::linear_codes::LigeroPCParams::<F, MTConfig, ColH<F>>::new(l, r, true, (), (), ()))
+}
+// the multilinear `setup` uses rate 1/2 (as Sizes.tla's CodeLen has it)
+fn ligero_ml_decl(c: Option<(usize, usize)>) -> (usize, usize, usize) {
+    match c {
+        Some((l, r)) => (l, r - 1, r),
+        None => (128, 1, 2),
+    }
+}
+// Brakedown's default parameter set (the paper's third row): beta = 0.061, r = 1.521, distance beta / r
+fn brakedown_decl(_c: Option<(usize, usize)>) -> (usize, usize, usize) {
+    (128, 61, 1521)
+}
+fn brakedown_mk(_l: usize, _r: usize) -> Option<ark_poly_commit::linear_codes::BrakedownPCParams<F, MTConfig, ColH<F>>> {
+    None
+}
+record_fn!(record_uni, LigeroUni, ark_poly_commit::linear_codes::UnivariateLigero<F, MTConfig, UniPoly<F>, ColH<F>>, ligero_decl, ligero_mk);
+record_fn!(record_ml, LigeroMl, ark_poly_commit::linear_codes::MultilinearLigero<F, MTConfig, MlPoly<F>, ColH<F>>, ligero_ml_decl, ligero_mk);
+record_fn!(record_bd, Brakedown, ark_poly_commit::linear_codes::MultilinearBrakedown<F, MTConfig, MlPoly<F>, ColH<F>>, brakedown_decl, brakedown_mk);
 
 pub fn columns(sizes_uni: &[usize], nvs: &[usize], batches: &[Vec<usize>]) -> Vec<Value> {
     use ark_poly_commit::linear_codes::{MultilinearBrakedown, MultilinearLigero, UnivariateLigero};
     let mut out = vec![];
     for s in sizes_uni {
-        out.extend(record_uni("ligero_uni", &[*s], -1));
+        out.extend(record_uni("ligero_uni", &[*s], -1, None));
     }
     for b in batches {
-        out.extend(record_uni("ligero_uni", b, -1));
+        out.extend(record_uni("ligero_uni", b, -1, None));
     }
     for nv in nvs {
-        out.extend(record_ml("ligero_ml", &[1], *nv as i64));
-        out.extend(record_ml("ligero_ml", &[1, 1], *nv as i64));
-        out.extend(record_bd("brakedown", &[1], *nv as i64));
+        out.extend(record_ml("ligero_ml", &[1], *nv as i64, None));
+        out.extend(record_ml("ligero_ml", &[1, 1], *nv as i64, None));
+        out.extend(record_bd("brakedown", &[1], *nv as i64, None));
+    }
+    // keys built through the public constructor: other security levels, rates that are not powers of two
+    for (l, r) in [(128usize, 3usize), (128, 5), (128, 6), (100, 2), (80, 8), (60, 7)] {
+        for s in [100usize, 170, 1023] {
+            out.extend(record_uni("ligero_uni", &[s], -1, Some((l, r))));
+        }
+        for nv in [6i64, 9] {
+            out.extend(record_ml("ligero_ml", &[1], nv, Some((l, r))));
+        }
     }
     out
 }
@@ -198,7 +243,7 @@ pub fn encoding(n: usize) -> Vec<Value> {
     use ark_poly_commit::linear_codes::{MultilinearBrakedown, MultilinearLigero, UnivariateLigero};
     let mut out = vec![];
     for size in [3usize, 16, 100] {
-        let recs = record_uni("ligero_uni", &[size], -1);
+        let recs = record_uni("ligero_uni", &[size], -1, None);
         let r = &recs[0];
         if r.get("error").is_some() {
             out.push(json!({"what": "encode_ligero_uni", "cases": 1, "ok": false, "why": r["error"]}));
@@ -209,14 +254,14 @@ pub fn encoding(n: usize) -> Vec<Value> {
             "encode_ligero_uni", &pp, r["n_cols"].as_u64().unwrap() as usize, r["n_ext"].as_u64().unwrap() as usize, n));
     }
     for nv in [3usize, 6] {
-        let recs = record_ml("ligero_ml", &[1], nv as i64);
+        let recs = record_ml("ligero_ml", &[1], nv as i64, None);
         let r = &recs[0];
         if r.get("error").is_none() {
             let pp = crate::session::cached_setup::<LigeroMl>(1, nv as i64).ok().unwrap();
             out.push(lin_one::<MultilinearLigero<F, MTConfig, MlPoly<F>, ColH<F>>, MlPoly<F>>(
                 "encode_ligero_ml", &pp, r["n_cols"].as_u64().unwrap() as usize, r["n_ext"].as_u64().unwrap() as usize, n));
         }
-        let recs = record_bd("brakedown", &[1], nv as i64);
+        let recs = record_bd("brakedown", &[1], nv as i64, None);
         let r = &recs[0];
         if r.get("error").is_none() {
             let pp = crate::session::cached_setup::<Brakedown>(1, nv as i64).ok().unwrap();
